@@ -542,6 +542,14 @@ type GhostFunc struct {
 	Result string
 }
 
+// GhostField: specification-only state attached to the objects of a named type (struct, or interface such
+// as iterator.Iterator). It lives in a heap array of its own ("GF:<type>.<name>"), is read as x.name in
+// specs, is never touched by code, and changes only through a contract that lists it in its modifies
+// clause ("modifies *" does not include ghost fields).
+type GhostField struct {
+	Pkg, Type, Name, TypeText string
+}
+
 type GlobalInv struct {
 	Pkg string // package name
 	Clause
@@ -557,6 +565,7 @@ type Guard struct {
 
 type SpecSet struct {
 	Guards     []Guard
+	GhostFields []GhostField
 	GlobalInvs []GlobalInv
 	Contracts map[string]*Contract
 	Preds     map[string]*Pred
@@ -573,7 +582,7 @@ func NewSpecSet() *SpecSet {
 var directiveWords = map[string]bool{
 	"func": true, "requires": true, "ensures": true, "invariant": true, "loop": true,
 	"modifies": true, "pred": true, "axiom": true, "ghost": true, "assert": true, "assume": true,
-	"guard": true, "let": true, "arith": true, "globalinv": true, "loopinv": true, "nodefault": true, "pure": true, "opt": true, "trusted": true, "terminates": true,
+	"guard": true, "ghostfield": true, "let": true, "arith": true, "globalinv": true, "loopinv": true, "nodefault": true, "pure": true, "opt": true, "trusted": true, "terminates": true,
 }
 
 // ParseSpecText parses the concatenated "//@" lines of one file. pkgPrefix is
@@ -796,6 +805,15 @@ func (ss *SpecSet) ParseSpecText(origin, pkgPrefix string, lines []string) error
 			}
 			a, b := strings.SplitN(parts[0], ".", 2), strings.SplitN(parts[2], ".", 2)
 			ss.Guards = append(ss.Guards, Guard{Pkg: pkgPrefix, Type: a[0], Field: a[1], OwnerType: b[0], MuField: b[1], Except: except})
+			cur, curLoop = nil, nil
+		case "ghostfield":
+			// ghostfield Type.name type      (type: a scalar Go type, or set = set of integers, intmap = integers to integers)
+			parts := strings.Fields(rest)
+			if len(parts) != 2 || !strings.Contains(parts[0], ".") {
+				return fmt.Errorf("%s: ghostfield: want `ghostfield Type.name type`, got %q", origin, rest)
+			}
+			k := strings.LastIndex(parts[0], ".")
+			ss.GhostFields = append(ss.GhostFields, GhostField{Pkg: pkgPrefix, Type: parts[0][:k], Name: parts[0][k+1:], TypeText: parts[1]})
 			cur, curLoop = nil, nil
 		case "ghost":
 			name, params, res, err := parseSig(rest)
